@@ -507,6 +507,11 @@ func scenarios(tier string) []*explore.Scenario {
 		}
 		add(scen{Proto: proto, Steps: []step{{Kind: "init"}, {Kind: "start", ID: 1}, {Kind: "stop", ID: 1}, {Kind: "await-cancel", ID: 1}}, Script: "block", InitFunc: "none"}, &two)
 		add(scen{Proto: proto, Steps: []step{{Kind: "init"}, {Kind: "start", ID: 1}, {Kind: "start", ID: 2}, {Kind: "stop", ID: 2}, {Kind: "await-cancel", ID: 2}}, Script: "block", InitFunc: "none"}, &one)
+		// id re-use right after a stop: the first instance may still be tearing down
+		for _, script := range []string{"block", "emit-end"} {
+			add(scen{Proto: proto, Steps: []step{{Kind: "init"}, {Kind: "start", ID: 1}, {Kind: "stop", ID: 1}, {Kind: "start", ID: 1}}, Script: script, InitFunc: "none"}, &two)
+		}
+		add(scen{Proto: proto, Steps: []step{{Kind: "init"}, {Kind: "start", ID: 1}, {Kind: "stop", ID: 1}, {Kind: "start", ID: 1}, {Kind: "stop", ID: 1}, {Kind: "await-cancel", ID: 1}}, Script: "block", InitFunc: "none"}, &one)
 		add(scen{Proto: proto, Steps: []step{{Kind: "init"}, {Kind: "start", ID: 1}, {Kind: "close-frame"}}, Script: "block", InitFunc: "none"}, &two)
 		add(scen{Proto: proto, Steps: []step{{Kind: "init"}, {Kind: "start", ID: 1}}, Script: "emit2-end", InitFunc: "none", KeepAlive: true}, &two)
 		add(scen{Proto: proto, Steps: []step{{Kind: "init"}, {Kind: "start", ID: 1}}, Script: "block", InitFunc: "none", KeepAlive: true}, &two)
